@@ -26,6 +26,16 @@ def exact_iv(iv):
     return iv <= 0 or int((iv / 1e6) * 1000000.0) == iv
 
 
+def iv_of(tok):
+    """interval token of the case format -> (repeating, delta in us).  "<n>ns" is the double n/1e9 seconds; the delta is
+    what muduo's addTime computes from it: static_cast<int64_t>(seconds * 1e6) (IEEE double product, truncated)."""
+    if tok.endswith("ns"):
+        ns = float(tok[:-2])
+        return (True, int((ns / 1e9) * 1000000.0)) if ns > 0 else (False, 0)
+    v = int(tok)
+    return (v > 0, v if v > 0 else 0)
+
+
 # ------------------------------------------------------------------ case text helpers
 def parse_script(tokens):
     """tokens after 'F': '[' ... ']' -> list of groups, each a list of cbop token lists."""
@@ -71,10 +81,11 @@ def fmt_script(groups):
 
 # ------------------------------------------------------------------ the property oracle
 class Tm:
-    __slots__ = ("tag", "when", "iv", "seq", "state", "runs", "next_dl", "cancel_in_f", "lost_cancel", "foreign")
+    __slots__ = ("tag", "when", "iv", "rep", "seq", "state", "runs", "next_dl", "cancel_in_f", "lost_cancel", "foreign")
 
-    def __init__(self, tag, when, iv, foreign):
+    def __init__(self, tag, when, iv, foreign, rep=None):
         self.tag, self.when, self.iv, self.foreign = tag, when, iv, foreign
+        self.rep = (iv > 0) if rep is None else rep
         self.seq, self.state, self.runs, self.next_dl = None, "new", [], when
         self.cancel_in_f, self.lost_cancel = None, False
 
@@ -108,7 +119,8 @@ def oracle(case, lines):
 
     def do_add(w, evs, idx, foreign):
         """w = [A|FA, tag, when, iv]; pops the add event. returns False on format error"""
-        tag, when, iv = int(w[1]), int(w[2]), int(w[3])
+        tag, when = int(w[1]), int(w[2])
+        rep_, iv = iv_of(w[3])
         while evs and ARM.match(evs[0]):
             m = ARM.match(evs.pop(0))
             note_arm(m)
@@ -125,7 +137,7 @@ def oracle(case, lines):
         seq = int(ADD.match(evs.pop(0)).group(1))
         if seq in byseq:
             bad.append(("cancel", idx, "sequence number %d handed out twice" % seq))
-        t = Tm(tag, when, iv if iv > 0 else 0, foreign)
+        t = Tm(tag, when, iv, foreign, rep=rep_)
         t.seq = seq
         t.state = "inflight" if foreign == "new" else ("queued" if foreign else "pending")
         if foreign == "new":
@@ -164,19 +176,26 @@ def oracle(case, lines):
     def run_cbops(ops, evs, idx, fidx, due):
         """ops of a callback / a top-level op list; returns nothing, mutates the bookkeeping"""
         nonlocal clk
+
+        def skip_arms():
+            while evs and ARM.match(evs[0]):
+                note_arm(ARM.match(evs.pop(0)))
         for cw in ops:
             ck = cw[0]
             if ck == "T":
                 if int(cw[1]) >= 0:
                     clk += int(cw[1])
-                elif evs and evs[0] == "rejected":
-                    evs.pop(0)
+                else:
+                    skip_arms()
+                    if evs and evs[0] == "rejected":
+                        evs.pop(0)
             elif ck in ("A", "FA"):
                 stats["nested_adds"] += 1
                 do_add(cw, evs, idx, ck == "FA")
             elif ck == "FN":
                 do_add(cw, evs, idx, "new")
             elif ck == "FQ":
+                skip_arms()
                 if int(cw[1]) in inflight:
                     do_enq(int(cw[1]), evs, idx)
                 elif evs and evs[0] == "rejected":
@@ -261,7 +280,7 @@ def oracle(case, lines):
                     bad.append(("once", idx, "timer tag %d (seq %d) ran in state %s (one-shot ran twice / ran before registration)" % (t.tag, seq, t.state)))
                 if t_run < t.next_dl:
                     bad.append(("early", idx, "timer tag %d (seq %d) ran at %d, before its deadline %d" % (t.tag, seq, t_run, t.next_dl)))
-                if t.iv > 0 and t_run < t.when + len(t.runs) * t.iv:
+                if t.rep and t_run < t.when + len(t.runs) * t.iv:
                     bad.append(("spacing", idx, "run #%d of repeater tag %d at %d < first deadline %d + %d*%d" % (len(t.runs) + 1, t.tag, t_run, t.when, len(t.runs), t.iv)))
                 if t not in due and t.state == "pending":
                     bad.append(("early", idx, "timer tag %d ran in a batch at %d although it was not due/registered when the batch started (deadline %d)" % (t.tag, now, t.next_dl)))
@@ -280,7 +299,7 @@ def oracle(case, lines):
                     bad.append(("lost", idx, "timer tag %d (seq %s, deadline %d) did not run in the expiry processed at %d" % (t.tag, t.seq, t.next_dl, now)))
             for t in ran:
                 if t.state == "pending":
-                    if t.iv > 0:
+                    if t.rep:
                         t.next_dl = now + t.iv
                     else:
                         t.state = "done"
@@ -333,8 +352,15 @@ def gen_case(rng, cid, maxops, focus):
         else:
             when = cur + rng.randrange(-50000, 300001)
         iv = 0
+        ivtok = None
         r2 = rng.random()
-        if r2 < 0.3:
+        if r2 < 0.05:
+            # intervals that are not a whole number of microseconds / below one microsecond (delta 0): Timer::restart
+            ivtok = rng.choice(["500ns", "999ns", "1ns", "1500ns", "100500ns", "2900000ns", "99999ns", "7300ns"])
+            iv = iv_of(ivtok)[1]
+            if rng.random() < 0.5:
+                when = cur + iv
+        elif r2 < 0.3:
             iv = rng.choice(IVS)
             if not exact_iv(iv):
                 iv = 1000
@@ -345,18 +371,22 @@ def gen_case(rng, cid, maxops, focus):
         if rng.random() < 0.01:
             when = rng.choice([0, -7])   # rejected precondition: deadline not after the epoch
         tags.append([ntag[0], when, iv, True])
-        if foreign == "new":
-            inflight.append(ntag[0])
+        ivs = ivtok if ivtok else str(iv)
+        if ivtok:
+            note("inexact-interval")
+        if foreign in ("new", "inbody_new"):
+            (inflight if foreign == "new" else inflight_next).append(ntag[0])
             note("foreign-new")
-            return ["FN", str(ntag[0]), str(when), str(iv)]
+            return ["FN", str(ntag[0]), str(when), ivs]
         if foreign:
             (queued_next if foreign == "inbody" else queued).add(ntag[0])
         note("nested-add" if nested else ("foreign-add" if foreign else "add"))
-        return ["FA" if foreign else "A", str(ntag[0]), str(when), str(iv)]
+        return ["FA" if foreign else "A", str(ntag[0]), str(when), ivs]
 
     queued = set()        # tags whose foreign add is in pendingFunctors_ now
     queued_next = set()   # tags whose foreign add will be queued by a user functor when the next P runs it
     inflight = []         # tags of foreign adds between their two micro-steps (FN done, FQ not yet)
+    inflight_next = []    # FN ops inside user functors that have not run yet
 
     def enq_op():
         """FQ of an in-flight add (or a new FN when there is none)"""
@@ -378,8 +408,14 @@ def gen_case(rng, cid, maxops, focus):
                 body.append(new_add(cur, True))
             elif r < 0.5:
                 body.append(["C", pick_cancel()])          # runs behind every add queued before it (FIFO)
-            elif r < 0.65:
+            elif r < 0.6:
                 body.append(new_add(cur, True, foreign="inbody"))
+            elif r < 0.68:
+                body.append(new_add(cur, True, foreign="inbody_new"))
+            elif r < 0.74 and inflight:
+                tag = inflight.pop(rng.randrange(len(inflight)))       # the hand-off happens when the functor runs
+                queued_next.add(tag)
+                body.append(["FQ", str(tag)])
             elif r < 0.8:
                 body.append(["FC", pick_cancel()])
             else:
@@ -492,6 +528,8 @@ def gen_case(rng, cid, maxops, focus):
             queued.clear()
             queued.update(queued_next)      # what the user functors of this batch queued waits for the next one
             queued_next.clear()
+            inflight.extend(inflight_next)
+            del inflight_next[:]
             note("run-pending")
         if inflight and rng.random() < 0.3:
             e = enq_op()
@@ -566,6 +604,11 @@ def boundary_cases():
     mk("q_basic", ["A 1 %d 1000" % (c + 1000), "Q { C 1 | A 2 %d 0 }" % (c + 500), "FA 3 %d 0" % (c + 400), "P", "T 1000", "F [ ]"])
     mk("q_between_functors", ["FA 1 %d 0" % (c + 300), "Q { FA 2 %d 0 | FC 1 | T 7 }" % (c + 200), "FA 3 %d 0" % (c + 100), "P", "P", "T 300", "F [ ]"])
     mk("q_add_then_cancel_fifo", ["FA 1 %d 500" % (c + 300), "Q { C 1 }", "P", "T 900", "F [ ]"])
+    mk("q_fn_fq_in_body", ["FN 1 %d 0" % (c + 100), "Q { FQ 1 | FN 2 %d 0 | C 1 }" % (c + 50), "P", "FQ 2", "Q { C 1 | FQ 3 }", "P", "P", "T 100", "F [ ]"])
+    # Timer::restart / addTime: intervals that are not whole microseconds, and below one microsecond (delta 0)
+    mk("iv_sub_us", ["A 1 %d 500ns" % (c + 100), "T 100", "F [ ]", "F [ ]", "T 50", "F [ ]", "T 50", "F [ ]", "F [ T 200 ]", "F [ ]", "C 1", "T 100", "F [ ]"])
+    mk("iv_inexact", ["A 1 %d 2900000ns" % (c + 2899), "A 2 %d 1500ns" % (c + 1), "A 3 %d 100500ns" % (c + 100), "T 2899", "F [ ]", "T 2899", "F [ ]", "T 1", "F [ ]"])
+    mk("iv_sub_us_self_cancel", ["A 1 %d 1ns" % (c + 10), "T 10", "F [ ]", "T 100", "F [ C 1 ]", "T 100", "F [ ]"])
     mk("q_from_callback", ["A 1 %d 0" % (c + 10), "T 10", "F [ Q { A 2 %d 0 | C 1 } ]" % (c + 5), "P", "F [ ]"])
     mk("deadline_eq_sentinel", ["A 1 %d 0" % (c + 100), "A 2 %d 0" % (c + 101), "T 100", "F [ ]", "T 1", "F [ ]"])
     return out
@@ -662,9 +705,9 @@ def run_both(impl, model, cases):
 
 
 # ------------------------------------------------------------------ free-running comparison against the wall clock
-FREE_DURATION = 400000      # us a free-running program lasts
+FREE_DURATION = 300000      # us a free-running program lasts at least; it ends when every expected timer has run
 FREE_LAST_DL = 150000       # latest first deadline
-FREE_MARGIN = 200000        # a timer whose deadline lies this far before the end must have run (lateness is the platform's)
+FREE_TIMEOUT = 30000000     # ... or, at the latest, after this long (30 s: only a lost timer or a hopelessly slow machine)
 
 
 def gen_free(rng, cid):
@@ -703,7 +746,7 @@ def gen_free(rng, cid):
         ops.append("X %d %d" % (cb, rng.choice([cb, cb, rng.choice(first)])))
     for _ in range(rng.randint(0, 6)):
         ops.append("FC %d %d" % (rng.choice(first), rng.randrange(0, 200000)))
-    return vlib.Case(cid, "free %d" % FREE_DURATION, ops, "free")
+    return vlib.Case(cid, "free %d %d" % (FREE_DURATION, FREE_TIMEOUT), ops, "free")
 
 
 def free_oracle(case, lines):
@@ -712,7 +755,7 @@ def free_oracle(case, lines):
     adds, runs, pos = {}, {}, 0
     cancelled = {}       # tag -> (position in the trace, time, kind) of the first processed cancel
     called = set()       # tags for which a cancel call was made at all
-    t_quit = None
+    t_quit, timed_out = None, False
     for l in lines[1:]:
         w = l.split()
         if not w or w[0] == "end":
@@ -730,6 +773,7 @@ def free_oracle(case, lines):
             cancelled.setdefault(int(w[1]), (pos, int(w[2]), "F"))
         elif w[0] == "quit":
             t_quit = int(w[1])
+            timed_out = len(w) > 2 and w[2] == "timeout"
     stats = {"timers": len(adds), "runs": sum(len(v) for v in runs.values()), "max_late_us": 0, "cancels_processed": len(cancelled)}
     if t_quit is None:
         return [("crash", "no quit record: the free-running program did not finish")], stats
@@ -768,9 +812,9 @@ def free_oracle(case, lines):
         if later:
             bad.append(("lost", "tag %d (deadline <= %d us, registered at %d, never cancelled) never ran although tag %d filed under the later "
                                 "deadline %d ran at %d" % (tag, a["hi"], a["ta"], later[0][3], later[0][1], later[0][0])))
-        # (b) by the clock, unless the machine was so loaded that lateness of that order was observed in this very program
-        elif a["hi"] + FREE_MARGIN <= t_quit and stats["max_late_us"] < FREE_MARGIN // 4:
-            bad.append(("lost", "tag %d (deadline <= %d us, never cancelled) did not run in %d us" % (tag, a["hi"], t_quit)))
+        # (b) the program waits for every expected timer and gives up only after FREE_TIMEOUT
+        elif timed_out:
+            bad.append(("lost", "tag %d (deadline <= %d us, never cancelled) had not run when the program gave up after %d us" % (tag, a["hi"], t_quit)))
     # deadline order among one-shots added on the loop thread before the earlier deadline
     one = [(tag, a) for tag, a in adds.items() if a["iv"] == 0 and len(runs.get(tag, [])) == 1]
     for ta_, a in one:
